@@ -301,7 +301,8 @@ def render_v3000(mol: Mol, style: V3Style | None = None, rng: random.Random | No
     lines = []
     header = style.header or [mol.name or "", "  rvharness", ""]
     lines.extend(header[:3])
-    lines.append("  0  0  0     0  0            999 V3000")
+    lines.append(rng.choice(["  0  0  0     0  0            999 V3000", "  0  0  0  0  0  0  0  0  0  0999 V3000", "  0  0  0     1  0            999 V3000",
+                             "  0  0        0               999 V3000"]) if style.counts_extra else "  0  0  0     0  0            999 V3000")
     logical = []  # (kind, content)
     logical.append(("frame", "BEGIN CTAB"))
     n_atom_lines = n + len(star_bonds)
@@ -582,10 +583,12 @@ def render_v2000(mol: Mol, style: V2Style | None = None, rng: random.Random | No
         sss = rng.randint(0, 3) if style.stereo_fields else 0
         hhh = rng.randint(0, 4) if style.stereo_fields else 0
         vvv = rng.choice([0, 0, 1, 15]) if style.stereo_fields else 0
-        lines.append(f"{a.x:10.4f}{a.y:10.4f}{a.z:10.4f} {sym:<3s} 0{code:3d}{sss:3d}{hhh:3d}  0{vvv:3d}  0  0  0  0  0  0")
+        mmm, nnn, eee = (rng.randint(0, 12), rng.choice([0, 1, 2]), rng.choice([0, 1])) if style.stereo_fields else (0, 0, 0)
+        lines.append(f"{a.x:10.4f}{a.y:10.4f}{a.z:10.4f} {sym:<3s} 0{code:3d}{sss:3d}{hhh:3d}  0{vvv:3d}  0  0  0{mmm:3d}{nnn:3d}{eee:3d}")
     for i, j, t in mol.bonds:
         st = rng.choice([0, 1, 4, 6]) if style.stereo_fields else 0
-        lines.append(f"{i + 1:3d}{j + 1:3d}{t:3d}{st:3d}  0  0  0")
+        rrr, ccc = (rng.choice([0, 1, 2]), rng.choice([0, -1, 1, 4, 8])) if style.stereo_fields else (0, 0)
+        lines.append(f"{i + 1:3d}{j + 1:3d}{t:3d}{st:3d}  0{rrr:3d}{ccc:3d}")
     for k in range(style.atom_lists):
         lines.append(f"{(k % n) + 1:3d} F    2   9  17")
         obs["atom_list_lines"] = obs.get("atom_list_lines", 0) + 1
